@@ -34,6 +34,88 @@ const (
 )
 
 /*
+Decodes the body of a JSON string literal (the text between the quotes).
+Understands the escapes of RFC 8259 including \uXXXX with surrogate pairs (a lone surrogate becomes U+FFFD).
+Parameters:
+  - str - body of the literal.
+
+Returns:
+  - decoded string, empty if the body contains an invalid escape.
+*/
+func unquoteJSON(str string) string {
+	hex4 := func(s string) (rune, bool) {
+		if len(s) < 4 {
+			return 0, false
+		}
+		var r rune
+		for i := 0; i < 4; i++ {
+			c := s[i]
+			switch {
+			case '0' <= c && c <= '9':
+				r = r<<4 | rune(c-'0')
+			case 'a' <= c && c <= 'f':
+				r = r<<4 | rune(c-'a'+10)
+			case 'A' <= c && c <= 'F':
+				r = r<<4 | rune(c-'A'+10)
+			default:
+				return 0, false
+			}
+		}
+		return r, true
+	}
+	var result strings.Builder
+	for i := 0; i < len(str); {
+		char := str[i]
+		if char != '\\' {
+			result.WriteByte(char)
+			i++
+			continue
+		}
+		if i+1 >= len(str) {
+			return ""
+		}
+		switch str[i+1] {
+		case '"', '\\', '/':
+			result.WriteByte(str[i+1])
+		case 'b':
+			result.WriteByte('\b')
+		case 'f':
+			result.WriteByte('\f')
+		case 'n':
+			result.WriteByte('\n')
+		case 'r':
+			result.WriteByte('\r')
+		case 't':
+			result.WriteByte('\t')
+		case 'u':
+			r, ok := hex4(str[i+2:])
+			if !ok {
+				return ""
+			}
+			i += 6
+			if 0xD800 <= r && r < 0xE000 {
+				low, ok := rune(0), false
+				if r < 0xDC00 && i+1 < len(str) && str[i] == '\\' && str[i+1] == 'u' {
+					low, ok = hex4(str[i+2:])
+				}
+				if ok && 0xDC00 <= low && low < 0xE000 {
+					r = ((r-0xD800)<<10 | (low - 0xDC00)) + 0x10000
+					i += 6
+				} else {
+					r = utf8.RuneError
+				}
+			}
+			result.WriteRune(r)
+			continue
+		default:
+			return ""
+		}
+		i += 2
+	}
+	return result.String()
+}
+
+/*
 Parses a primitive field of object or list. Does not include strings.
 Parameters:
   - field - field to parse.
@@ -168,7 +250,7 @@ func parseList(json string, line *int) (List, int, error) {
 				continue
 			}
 			if char == '"' {
-				str, _ := strconv.Unquote(fmt.Sprintf(`"%s"`, val.String()))
+				str := unquoteJSON(val.String())
 				list.Add(str)
 				val.Reset()
 				state = stateValAfterString
@@ -279,7 +361,7 @@ func parseObject(json string, line *int) (Object, int, error) {
 			if char != ':' {
 				return nil, 0, fmt.Errorf("not a valid JSON - expecting ':', got '%s' on line %d", string(char), *line)
 			}
-			str, _ := strconv.Unquote(fmt.Sprintf(`"%s"`, key.String()))
+			str := unquoteJSON(key.String())
 			key.Reset()
 			key.WriteString(str)
 			val.Reset()
@@ -378,7 +460,7 @@ func parseObject(json string, line *int) (Object, int, error) {
 				continue
 			}
 			if char == '"' {
-				str, _ := strconv.Unquote(fmt.Sprintf(`"%s"`, val.String()))
+				str := unquoteJSON(val.String())
 				object.Set(key.String(), str)
 				state = stateValAfterString
 				continue
